@@ -178,3 +178,11 @@ Qed.
 Example ring_bond_chiral_examples :
   ring_bond_chiral [8] = true /\ ring_bond_chiral [7] = false /\ ring_bond_chiral [9; 12] = true /\ ring_bond_chiral [10; 6] = false.
 Proof. vm_compute. repeat split; reflexivity. Qed.
+
+(* the stereo-blind atom order is used exactly for molecules without any label: as soon as a double bond (or an atom) is
+   labelled the order is refined by the labels, which is what makes a centre whose arms differ only by E/Z chiral *)
+Theorem plain_order_iff_no_label : forall atoms bond_atoms, uses_plain_order atoms bond_atoms = true <-> atoms = [] /\ bond_atoms = [].
+Proof.
+  intros atoms bond_atoms. unfold uses_plain_order. destruct atoms, bond_atoms; split; intros H; try discriminate; auto;
+    destruct H; discriminate.
+Qed.
